@@ -89,7 +89,9 @@ var castTypes = []struct {
 	t    influxql.DataType
 }{{"float", false, influxql.Float}, {"integer", false, influxql.Integer}, {"unsigned", false, influxql.Unsigned}, {"string", false, influxql.String},
 	{"boolean", false, influxql.Boolean}, {"FIELD", true, influxql.AnyField}, {"TAG", true, influxql.Tag}}
-var funcNames = []string{"mean", "count", "max", "top", "derivative", "percentile", "now", "my_func"}
+
+// (the last two can only be written quoted: any identifier directly in front of a parenthesis names a function)
+var funcNames = []string{"mean", "count", "max", "top", "derivative", "percentile", "now", "my_func", "my func", "select"}
 
 func intLit(text string, neg bool) influxql.Expr {
 	if v, err := strconv.ParseInt(text, 10, 64); err == nil {
@@ -138,7 +140,11 @@ func (g *G) varref(cx ExprCtx, form int) influxql.Expr {
 
 func (g *G) call(cx ExprCtx) influxql.Expr {
 	name := funcNames[g.pick(len(funcNames))]
-	g.emit(Tok{K: FUNC, Text: name, Role: cx.Role + ".func"})
+	if influxql.IdentNeedsQuotes(name) {
+		g.emit(Tok{K: IDENT, Text: name, Role: cx.Role + ".func"})
+	} else {
+		g.emit(Tok{K: FUNC, Text: name, Role: cx.Role + ".func"})
+	}
 	g.Glue()
 	g.p("(")
 	c := &influxql.Call{Name: name}
